@@ -703,6 +703,14 @@ pub fn build(plan: &Plan) -> Model {
                                 acts.push(c.act.clone());
                                 st.long.clear();
                                 st.types = None;
+                            } else if st.types.is_none() && block.bind.is_none() && st.nparams > 0 {
+                                // values without any types bound for this incarnation of the
+                                // statement (e.g. right after a re-PREPARE): nothing can be
+                                // decoded faithfully, so the shim must not see this execution
+                                m.eff_types = block.stale_types.clone();
+                                m.routing = Routing::Exact(None);
+                                m.reply = Reply::Unconstrained;
+                                m.ends = Some(EndOfConn::Any);
                             } else {
                                 if let Some(b) = &block.bind {
                                     st.types = Some(b.clone());
